@@ -191,7 +191,7 @@ Definition parse_string (p : sparams) (cs : list bytes) (b : bytes) : pres (byte
 Definition build_is_quoted (binary : bool) (v : bytes) : bool :=
   match v with
   | [] => true
-  | _ => negb binary && (N.of_nat (length v) <? 64) &&
+  | _ => negb binary && (N.of_nat (length v) <? 64) && negb (existsb (N.eqb CR) v) &&
          negb (existsb (N.eqb LF) v) && negb (existsb (N.eqb 0) v)
   end.
 Definition string_build (binary : bool) (v : bytes) : bytes :=
